@@ -195,7 +195,7 @@ def defaults_for(gtype):
     if gtype == 'FooEn':
         return [['v', 'FOO_EN_A'], ['v', 'FOO_EN_B']]
     if gtype in ('FooFl', 'GParamFlags'):
-        return [['v', 'FOO_FL_A | FOO_FL_B'], ['v', 'FOO_FL_A'], ['v', '']]
+        return [['v', 'FOO_FL_A | FOO_FL_B'], ['v', 'FOO_FL_A'], ['v', '0']]    # no bit set prints "0" (checked against GLib)
     return [None]          # pointer / boxed / object / variant / param defaults are NULL: no attribute
 
 
